@@ -741,15 +741,19 @@ class ExcelInPython:
         empty = [elem for elem in flatten_list if elem is None or elem == ""]
         return len(empty)
 
-    def _ifs(self, flatten_list: List):
-        err_value = self._find_error_in_list(flatten_list)
-        if err_value:
-            return err_value
-
+    def _ifs(self, conditions_and_values: List):
+        # пары (условие, значение) вычисляются по очереди: значение - только у первого истинного условия
         index = 0
-        while index < len(flatten_list):
-            if flatten_list[index]:
-                return flatten_list[index + 1]
+        while index + 1 < len(conditions_and_values):
+            condition = conditions_and_values[index]
+            condition = condition() if callable(condition) else condition
+            err_value = self._find_error_in_list(self._flatten_list([condition]))
+            if err_value:
+                return err_value
+
+            if condition:
+                value = conditions_and_values[index + 1]
+                return value() if callable(value) else value
             index += 2
 
         return '#N/A'
